@@ -112,7 +112,7 @@ def clause_filter(c, v, e):
 def run(ctx):
     rnd = random.Random(ctx.seed)
     q = ctx.quick
-    consts = {'GEN': 'TRUE', 'FLAGSET': '{0, 2, 6, 9}' if q else '0..15', 'MENUS': '{0, 1, 2}'}
+    consts = {'GEN': 'TRUE', 'FLAGSET': '{0, 2, 6, 9}' if q else '{%s}' % ', '.join(str(i) for i in range(16)), 'MENUS': '{0, 1, 2}'}
     r = ctx.mc('MC_IT', constants=consts, coverage=False, timeout=3000)
     scs = tlc.printed_json(r['out'])
     if len(scs) < 5000:
